@@ -115,6 +115,19 @@ func predicateTable(p *Prog, fn *ssa.Function, bind []Val) (map[rune]bool, strin
 func installUnicodeModels(m *Machine) {
 	u1 := func(f func(r rune) bool) HookFn {
 		return func(m *Machine, st *State, call *ssa.CallCommon, args []Val) ([]Val, bool) {
+			if sv, ok := args[0].(SymV); ok && m.Alpha != nil {
+				// a byte converted to a rune: decide on every member of the class
+				res, first := false, true
+				for _, by := range m.Alpha.Members[sv.C] {
+					r := f(rune(by))
+					if first {
+						res, first = r, false
+					} else if r != res {
+						return []Val{Unknown{Why: "alphabet class too coarse for a unicode predicate"}}, true
+					}
+				}
+				return []Val{res}, true
+			}
 			n, ok := args[0].(int64)
 			if !ok {
 				return nil, false
